@@ -51,6 +51,7 @@ func c05Columns(r *RNG, n int, target string, maxLayer int) []OutCol {
 }
 
 type c05Check struct {
+	sep, fill string
 	viols []Violation
 	stats map[string]float64
 }
@@ -70,6 +71,13 @@ func (c *c05Check) v(oracle, class string, day Day, detail string) {
 
 // checkWidths validates the field count of every record of a stream.
 func (c *c05Check) checkFields(name string, f *SimFile, cols []OutCol, csv bool) [][]string {
+	sep, fill := c.sep, c.fill
+	if sep == "" {
+		sep = ","
+	}
+	if fill == "" {
+		fill = " "
+	}
 	if f == nil {
 		c.v("files", "result-file-missing:"+name, 0, "no "+name+" result file was written")
 		return nil
@@ -100,7 +108,7 @@ func (c *c05Check) checkFields(name string, f *SimFile, cols []OutCol, csv bool)
 		}
 		var fs []string
 		if csv {
-			fs = strings.Split(l, ",")
+			fs = strings.Split(l, sep)
 			if len(fs) != len(cols) {
 				c.v("field-count", "record-field-count-differs:"+name, 0, fmt.Sprintf("%s record %d has %d fields, the output configuration defines %d columns: %q", name, i, len(fs), len(cols), l))
 				return recs
@@ -113,7 +121,7 @@ func (c *c05Check) checkFields(name string, f *SimFile, cols []OutCol, csv bool)
 			rs := []rune(l)
 			pos := 0
 			for _, col := range cols {
-				fs = append(fs, strings.TrimSpace(string(rs[pos:pos+col.Width])))
+				fs = append(fs, strings.Trim(string(rs[pos:pos+col.Width]), fill+" "))
 				pos += col.Width + 1
 			}
 		}
@@ -135,6 +143,15 @@ func execC05(sc *Scenario, env *Env) *Result {
 	}
 	n := w.Soil.N()
 	oc := &OutputCfg{}
+	// separator and fill character of the output configuration: ASCII and non-ASCII (multi-byte in UTF-8)
+	oc.Sep = r.Sub("sep", 0).PickS([]string{",", ",", ",", ";", "|", "¦", "§"})
+	oc.Fill = r.Sub("fill", 0).PickS([]string{" ", " ", " ", "~", "·"})
+	if v, ok := sc.Params["sep"]; ok {
+		oc.Sep = v
+	}
+	if v, ok := sc.Params["fill"]; ok {
+		oc.Fill = v
+	}
 	oc.Daily = append([]OutCol{{Var: "AKTUELL", Fmt: "%s", Width: 12}}, c05Columns(r.Sub("d", 0), r.Range(0, 30), "daily", n)...)
 	oc.Yearly = append([]OutCol{{Var: "AKTUELL", Fmt: "%s", Width: 12}}, c05Columns(r.Sub("y", 0), r.Range(0, 12), "daily", n)...)
 	oc.Crop = append([]OutCol{{Var: "Crop", Fmt: "%s", Width: 8}, {Var: "HarvestYear", Fmt: "%d", Width: 8}, {Var: "HarvestDOY", Fmt: "%d", Width: 8}}, c05Columns(r.Sub("c", 0), r.Range(0, 12), "crop", n)...)
@@ -144,8 +161,11 @@ func execC05(sc *Scenario, env *Env) *Result {
 	if out == nil || res.Status == "crash" || res.Status == "invalid" {
 		return res
 	}
-	chk := &c05Check{}
+	chk := &c05Check{sep: oc.Sep, fill: oc.Fill}
 	csv := w.Cfg.ResultFormat == 1
+	if (csv && oc.Sep[0] >= 0x80) || (!csv && oc.Fill[0] >= 0x80) {
+		res.add("reach.non-ascii-separator-or-fill", 1)
+	}
 	id := outIDWorld(w)
 	start, end := w.Start(), w.Cfg.End
 	annualInEnd := DayOf(end.Year(), w.Cfg.AnnualM, w.Cfg.AnnualD)
@@ -328,8 +348,8 @@ func init() {
 		Exec:  execC05,
 		Quick: 600, Thorough: 20000,
 		NonTrivial: func(res *Result) bool { return res.Status != "invalid" && res.Status != "crash" && (res.Stats["reach.multi-year"] > 0 || res.Stats["reach.crop-records"] > 0) },
-		Rule:       "one generated world per evaluation with random start/end/annual dates (incl. 29 Feb, 31 Dec, 1 Jan, annual date after the end date), output intervals 0..10, both styles, and generated output configurations over every supported kind of reference (float/int scalars, [i], [i][j], nested X.Num/X.Index, text incl. empty text, slice element, modifier, unknown variable, index out of range); the recorded V/Y/C write streams are checked as histories: exact set and order of record dates against the reference calendar, one yearly record per simulated year on the configured date, one crop record per harvested rotation entry in order, field count / record width per record, files closed once and terminated; non-trivial = more than one year or at least one crop record",
-		ReachKeys:  []string{"reach.multi-year", "reach.crop-records", "reach.interval-gt-1", "reach.leap-day-record", "reach.csv-style", "reach.fixed-width-style"},
+		Rule:       "one generated world per evaluation with random start/end/annual dates (incl. 29 Feb, 31 Dec, 1 Jan, annual date after the end date), output intervals 0..10, both styles, ASCII and non-ASCII separator / fill characters, and generated output configurations over every supported kind of reference (float/int scalars, [i], [i][j], nested X.Num/X.Index, text incl. empty text, slice element, modifier, unknown variable, index out of range); the recorded V/Y/C write streams are checked as histories: exact set and order of record dates against the reference calendar, one yearly record per simulated year on the configured date, one crop record per harvested rotation entry in order, field count / record width per record, files closed once and terminated; non-trivial = more than one year or at least one crop record",
+		ReachKeys:  []string{"reach.non-ascii-separator-or-fill", "reach.multi-year", "reach.crop-records", "reach.interval-gt-1", "reach.leap-day-record", "reach.csv-style", "reach.fixed-width-style"},
 		Assumptions: []string{
 			"column widths are generated wide enough for every value (26), so that a record's width is the sum of the configured widths",
 			"the yearly and crop oracles take the known extension of the simulated period (annual output date on or after the end date) as given; the extension itself is judged by the daily oracle",
